@@ -158,8 +158,7 @@ def ofTrace (t : Trace) : Sexp :=
   .list [ofVerdict t.first, ofVerdict t.again, ofVerdict t.other, ofBool t.pureM, ofBool t.pureV]
 
 def drv : PropDrv Input Trace :=
-  { decI := input?, decT := trace?, encT := ofTrace, model := model, clauses := Spec.C06.clauses,
-    classes := Spec.C06.classes }
+  { decI := input?, decT := trace?, encT := ofTrace, model := model, clauses := Spec.C06.clauses }
 
 def handle : List Sexp → Sexp := drv.handle
 end TTV.Drv.C06
